@@ -37,8 +37,11 @@ StartBlock(r) == LET r1 == Flush(r)
                  IN [r2 EXCEPT !.abe = FALSE]
 NewLineHard(r) == IF IsNull(r.wb) THEN AddEmptyLine(r)
                   ELSE IF r.wb.wordlen = 0 /\ SumW(r.wb.line) = 0 THEN AddEmptyLine(r) ELSE Flush(r)
-StrikeFilter(s) == FoldLeft(LAMBDA acc, c : IF CW(c) > 0 /\ ~IsWs(c) THEN acc \o << c, <<STRIKE, 0>> >> ELSE Append(acc, c), <<>>, s)
-WrapWidth(r, cf) == IF cf.maxwrap >= 0 THEN Min2(cf.maxwrap, r.width) ELSE r.width
+\* filter_text_strikeout: a mark after every visible character that is not already struck out
+StrikeFilter(s) == FoldLeft(LAMBDA acc, i : IF CW(s[i]) > 0 /\ ~IsWs(s[i]) /\ (i = Len(s) \/ s[i + 1][1] # STRIKE)
+                                            THEN acc \o << s[i], <<STRIKE, 0>> >> ELSE Append(acc, s[i]),
+                            <<>>, [i \in 1..Len(s) |-> i])
+WrapWidth(r, cf) == IF cf.maxwrap >= 0 THEN Min2(Max2(cf.maxwrap, 1), r.width) ELSE r.width    \* max_wrap_width(0) counts as 1
 GetWB(r, cf) == IF IsNull(r.wb) THEN NewWB(WrapWidth(r, cf), cf.pad, cf.overflow) ELSE r.wb
 AddInlineText(r, s0, cf) ==
   IF ~Preserve(WsMode(r)) /\ r.abe /\ AllWs(s0) THEN r
